@@ -510,6 +510,11 @@ def hash_roundtrip(arrays, fmt, via_file, scratch):
         else:
             text = mol.to_string(fmt)
             mol2 = Molecule.from_data(text, dtype=fmt)
+            # format auto-detection on a valid text (psi4 -> xyz -> xyz+ cascade: an xyz+ text without ghosts and unit
+            # marker is also a valid strict xyz text and is read as such, so only psi4 and xyz are compared)
+            mol3 = Molecule.from_data(text) if fmt != "xyz+" else mol2
+            if mol3.get_hash() != mol2.get_hash():
+                return f"auto-detection reads a valid {fmt} text as a different molecule than dtype={fmt}", text
     except Exception as e:
         return f"Molecule -> {fmt} {'file' if via_file else 'string'} -> Molecule raised {type(e).__name__}: {str(e)[:160]}", None
     if mol.get_hash() != mol2.get_hash():
@@ -631,7 +636,7 @@ def correspond(ctx):
             corr.failures.append({"stream": "hash", "case": {"arrays": arrays, "fmt": fmt, "via_file": via_file}, "what": bad, "observed": text})
 
     ctx.log(f"{len(terms)} parse cases, {len(lex_terms)} recogniser cases, {len(txt_terms)} text cases; evaluating the model")
-    bad, errors = coqrun.eval_bad_indices("C07", REQ, PRELUDE, "check_parse", terms, shard=250, ty="string * string * outcome processed_b")
+    bad, errors = c08.eval_with_retry(ctx, "C07", REQ, PRELUDE, "check_parse", terms, 250, "string * string * outcome processed_b")
     corr.errors.extend(f"parse shard {k}: {e}" for k, e in errors)
     for b in bad:
         stream, case, ob = meta[b]
@@ -640,12 +645,12 @@ def correspond(ctx):
             got, _ = coqrun.eval_terms("C07", REQ, PRELUDE, [f"parse {cstr(case['dtype'])} {cstr(case['text'])}"])
         corr.disagreements.append({"stream": stream, "case": case, "impl": [ob["parse"][0], str(ob["parse"][1])[:1500]],
                                    "model": (got or ["(not printed)"])[0][:1500]})
-    bad, errors = coqrun.eval_bad_indices("C07lex", REQ, PRELUDE, "check_lex", lex_terms, shard=1500, ty="string * string * bool")
+    bad, errors = c08.eval_with_retry(ctx, "C07lex", REQ, PRELUDE, "check_lex", lex_terms, 1500, "string * string * bool")
     corr.errors.extend(f"lex shard {k}: {e}" for k, e in errors)
     for b in bad:
         k, s, r = lex[b]
         corr.disagreements.append({"stream": "lex", "case": {"kind": k, "text": s}, "impl": r, "model": (not r)})
-    bad, errors = coqrun.eval_bad_indices("C07txt", REQ, PRELUDE, "check_text", txt_terms, shard=1500, ty="string * string * string")
+    bad, errors = c08.eval_with_retry(ctx, "C07txt", REQ, PRELUDE, "check_text", txt_terms, 1500, "string * string * string")
     corr.errors.extend(f"text shard {k}: {e}" for k, e in errors)
     for b in bad:
         k, s, r = txt[b]
@@ -714,19 +719,21 @@ LEVEL_TEXT = (
     "multiplicities, frame flags), either unit, any width/precision: parse(\"psi4\", characters written by the writer model) = the "
     "written labels, printed coordinates, total and fragment charge/multiplicity, fragment boundaries, fix flags and unit (induction "
     "over fragment and atom lists; string-level lemmas C07_number_reads_back, C07_atom_line_reads_back; the psi4 format strings come "
-    "from the regenerated table); C07_psi4_reader_on_fragment_blocks; C07_roundtrip_xyzplus_partial / C07_roundtrip_xyz_partial (line "
-    "level only); C07_total, C07_total_short (any text of <= 4300 characters: dictionary, MoleculeFormatError or outside-the-model), "
+    "from the regenerated table); C07_psi4_reader_on_fragment_blocks; C07_roundtrip_xyzplus_lines (xyz+ writer lines -> xyz+ reader, "
+    "every molecule, level of lines), C07_roundtrip_xyzplus_partial / C07_roundtrip_xyz_partial (the line filters on any accepted lines); C07_total, C07_total_short (any text of <= 4300 characters: dictionary, MoleculeFormatError or outside-the-model), "
     "C07_total_refuted (witness of the int() digit-limit ValueError); layout: C07_layout_outer_whitespace, C07_layout_comment, "
     "C07_layout_comment_line, C07_layout_separators, C07_layout_keyword_case, C07_psi4_text_of_lines with "
-    "C07_layout_blank_lines_psi4 and C07_layout_line_padding_psi4, C07_numeral_plus / _leading_zero / _exponent_letter. The reader model "
+    "C07_layout_blank_lines_psi4 and C07_layout_line_padding_psi4, C07_layout_insensitive (the equivalence generated by outer white "
+    "space, appended comment, comment line, blank line, line padding preserves parse(psi4)), C07_numeral_plus / _leading_zero / _exponent_letter. The reader model "
     "is tied to the implementation on every run: every recogniser against the module's own compiled regular expressions, "
     "filter_comments/strip against the functions, and parse against from_string on valid texts, seven kinds of layout rewrites, byte-level "
     "mutations and token soups (the dictionary handed to from_input_arrays is observed by wrapping that function); oracles on the "
     "implementation: field-wise round trip, Molecule -> string/file -> Molecule hash equality, layout invariance, exception classes.")
 LEVEL_NOTE = (
     "Not modelled: validation after parsing (from_input_arrays: C04/C05/C06), so 'validated molecule' and 'unchanged hash' are checked on "
-    "the implementation only (oracle), and letter case of element symbols is covered at the recogniser level, not as a parse-level "
-    "theorem; xyz / xyz+ round trip is proved at line level only; layout theorems are per rewrite kind (no single closure relation); "
+    "the implementation only (oracle), and letter case of element symbols / ghost wrappers is only tested (layout:case stream), "
+    "there is no theorem for it; the xyz+ round trip is proved from the writer's lines (not from characters), strict xyz only as a line-filter statement; "
+    "separators, keyword case and numerals are recogniser-level theorems outside the layout_equiv relation; "
     "equivalent numerals are proved equal as decimals for three rewrite kinds (trailing zeros and mantissa/exponent shifts only tested). "
     "Trusted: Coq kernel + vm_compute; hand-written recognisers (differentially tied to re on ASCII); float(str) = nearest binary64 and "
     "int(str) models; the harness. Outside the model: non-ASCII text, pubchem and efp lines, psi4+ / auto-detection. Findings: int() "
